@@ -14,7 +14,8 @@ TECHNIQUE = "Coq proof: reflexive limits table on the regenerated declarations; 
 LEVEL_TEXT = ("Kernel-checked table of every capacity and integer width of the request-side declarations regenerated from /repo against the limits the property lists. Theorems: the decoder accepts a "
               "byte/text string iff its length is within the capacity and returns it verbatim; exact-length arrays; integers up to the type maximum unchanged and the next value rejected; c12_count_exact: "
               "a list of any well-typed elements is delivered whole when its count is at most N and rejected once N+1 elements have been read (heapless::Vec rule); c12_accepted_values_unaltered: every "
-              "well-typed value of every type, at the declarations regenerated from /repo in every feature set, comes back from the decoder exactly. Boundary probes of every bounded member inside "
+              "well-typed value of every type, at the declarations regenerated from /repo in every feature set, comes back from the decoder exactly; c12_accepted_is_within_limits (coq/Proofs/LimitsP.v dec_within): "
+              "for EVERY input byte string, canonical or not, whatever the decoder accepts respects every declared capacity, length, range and count. Boundary probes of every bounded member inside "
               "valid messages are compared with the extracted model.")
 feature_sets = default_feature_sets
 
